@@ -5,7 +5,7 @@ from .. import initgen
 ID = "C01"
 SUITES = ["init"]
 LEAN_MODULES = ["VpnCloud.Proofs.C01"]
-THEOREMS = []
+THEOREMS = ["VpnCloud.Proofs.C01." + n for n in ("readFrom_never_fatal", "readFrom_accept_genuine", "accepted_was_signed_by_trusted", "handleInit_reject_pure", "peerCrypto_reject_pure", "stale_tail_irrelevant", "success_needs_trusted_signature")]
 BATCH = 20
 SEARCH_BUDGET_S = 400
 EXPECTED_CLASSES = ["ideliver:reply", "ideliver:init", "ideliver:err:crypto", "ideliver:err:parse", "ideliver:msg"]
